@@ -136,3 +136,25 @@ def const_value(node: ast.AST):
 def require(cond, msg):
     if not cond:
         raise AnalysisError(msg)
+
+
+def norm_construct(fnode: ast.AST, *nodes) -> str:
+    """Text of constructs with the function's local variable names replaced by positional placeholders (in order of
+    first appearance), so that keys of known findings survive renaming and reformatting."""
+    import copy
+    locs = local_names(fnode)
+    params = set()
+    if isinstance(fnode, (ast.FunctionDef, ast.AsyncFunctionDef)):
+        a = fnode.args
+        params = {x.arg for x in a.posonlyargs + a.args + a.kwonlyargs}
+    ren = {}
+    out = []
+    for nd in nodes:
+        c = copy.deepcopy(nd)
+        for x in ast.walk(c):
+            if isinstance(x, ast.Name) and x.id in locs and x.id not in params:
+                if x.id not in ren:
+                    ren[x.id] = f"v{len(ren)}"
+                x.id = ren[x.id]
+        out.append(ast.unparse(c))
+    return " :: ".join(out)
